@@ -8,7 +8,7 @@ container of that tree, "which positions are valid", "which positions does itera
 from __future__ import annotations
 
 LIST_KINDS = ("Pile", "Columns", "GridFlow", "ListBox")
-LEAF_KINDS = ("S", "U", "E")
+LEAF_KINDS = ("S", "U", "E", "D", "W", "A")
 FRAME_ORDER = ("header", "body", "footer")
 
 
@@ -95,3 +95,59 @@ def flat_arrow_expectation(kind, selectable, i, key):
     if j is None:
         return i, False
     return j, True
+
+
+# ---------------------------------------------------------------------------------------------- command maps
+# The documented default bindings (class docstring of urwid.CommandMap: "Default values (key: command)"), as plain
+# strings.  A command map is, for the reference, a plain dict; a widget without a private map reads the shared one.
+CURSOR_COMMANDS = {"cursor up": "up", "cursor down": "down", "cursor left": "left", "cursor right": "right"}
+DEFAULT_COMMANDS = {
+    "tab": "next selectable",
+    "ctrl n": "next selectable",
+    "shift tab": "prev selectable",
+    "ctrl p": "prev selectable",
+    "ctrl l": "redraw screen",
+    "esc": "menu",
+    "up": "cursor up",
+    "down": "cursor down",
+    "left": "cursor left",
+    "right": "cursor right",
+    "page up": "cursor page up",
+    "page down": "cursor page down",
+    "home": "cursor max left",
+    "end": "cursor max right",
+    " ": "activate",
+    "enter": "activate",
+}
+
+
+def arrow_of(command):
+    """The arrow key ('up' | 'down' | 'left' | 'right') a command stands for, or None."""
+    return CURSOR_COMMANDS.get(command)
+
+
+# Edits of a (reference) command map, as (operation, key-or-command[, command]) triples: applied to a plain dict here
+# and through the public mapping API of urwid.CommandMap in the harness.
+COMMAND_EDITS = {
+    # vi-style up/down on 'j'/'k', the arrows themselves unbound
+    "vi": [("set", "j", "cursor down"), ("set", "k", "cursor up"), ("del", "up"), ("del", "down")],
+    # left/right on 'k'/'j', the arrows themselves unbound
+    "hl": [("set", "j", "cursor right"), ("set", "k", "cursor left"), ("del", "left"), ("del", "right")],
+    # every key of two commands unbound
+    "clear": [("clear", "cursor down"), ("clear", "cursor right")],
+}
+
+
+def apply_command_edits(d, edits):
+    """Apply COMMAND_EDITS entries to the plain dict d (in place)."""
+    for e in edits:
+        if e[0] == "set":
+            d[e[1]] = e[2]
+        elif e[0] == "del":
+            del d[e[1]]
+        elif e[0] == "clear":
+            for k in [k for k, v in d.items() if v == e[1]]:
+                del d[k]
+        else:
+            raise ValueError(e)
+    return d
